@@ -137,13 +137,23 @@ def run_case(case, rec, ctx):
         return
     tops = R.topologies_of(reaction)
     spinless_final = all(p.spin == 0 for p in reaction.final_state.values())
+    rng = np.random.default_rng([case["seed"]])
+    r2 = b = model = None
+    names_ = [p.name for p in reaction.final_state.values()]
+    if len(tops) == 1 and len(set(names_)) < len(names_):
+        # identical final-state particles: the builder adds the exchanged chains, which live on further topologies - the model
+        # has as many topologies as its adapter has registered after formulate()
+        r2, b = C.build(reaction, cfg)
+        model = b.formulate()
+        if len(b.adapter.registered_topologies) > 1:
+            tops = sorted(b.adapter.registered_topologies, key=str)
     required = len(tops) == 1 or spinless_final or cfg["align"] != "none"
     if not required:
         rec.note("not_required:multi_topology_spinful_without_alignment")
         return
-    rng = np.random.default_rng([case["seed"]])
-    r2, b = C.build(reaction, cfg)
-    model = b.formulate()
+    if model is None:
+        r2, b = C.build(reaction, cfg)
+        model = b.formulate()
     pv = C.random_parameters(model, rng)
     label = f"{name} [{C.config_key(cfg)}]"
     feats = {"n_topologies": len(tops), "spinless_final_state": spinless_final, "align": cfg["align"].rstrip("123"),
